@@ -241,3 +241,36 @@ package align
 
 //@ func init#7
 //@   props C09
+
+// Step.String: the three step names; any other value panics (the explicit panic of the default case).
+//@ func Step.String
+//@   props C08
+//@   panics s != Match && s != Deletion && s != Insertion
+//@   ensures s == Match ==> result == "match"
+//@   ensures s == Deletion ==> result == "deletion"
+//@   ensures s == Insertion ==> result == "insertion"
+
+// charOrGap: safety only (no panic for any byte)
+//@ func charOrGap
+//@   props C20
+//@   thin
+
+// GoString: safety (every key of the matrix is listed through Get, which panics on an absent pair: no panic here) and the
+// number of listed pairs; the text layout itself is served by the bounded stand-in.
+//@ func SubstitutionMatrix.GoString
+//@   props C20
+//@   sequential
+//@   witness sorted
+//@   ensures len(sorted) == len(m)
+//@   ensures forall j int :: 0 <= j && j < len(sorted) ==> len(sorted[j]) == 2 && has(m, key2(sorted[j][0], sorted[j][1]))
+// every pair exactly once, in strictly ascending (lexicographic) key order
+//@   ensures forall k int :: {has(m, k)} has(m, k) ==> exists j int :: 0 <= j && j < len(sorted) && key2(sorted[j][0], sorted[j][1]) == k
+//@   ensures forall a int, b int :: 0 <= a && a < b && b < len(sorted) ==> lexcmp(rawarr(sorted[b]), offset(sorted[b]), 2, rawarr(sorted[a]), offset(sorted[a]), 2) >= 0
+//@   ensures forall a int, b int :: 0 <= a && a < b && b < len(sorted) ==> lexcmp(rawarr(sorted[a]), offset(sorted[a]), 2, rawarr(sorted[b]), offset(sorted[b]), 2) == 0 - 1
+//@   loop 1
+//@     invariant len(sorted) == seenN
+//@     invariant forall j int :: 0 <= j && j < len(sorted) ==> len(sorted[j]) == 2 && has(m, key2(sorted[j][0], sorted[j][1])) && seen(key2(sorted[j][0], sorted[j][1]))
+//@     invariant forall k int :: {seen(k)} seen(k) ==> exists j int :: 0 <= j && j < len(sorted) && key2(sorted[j][0], sorted[j][1]) == k
+//@     invariant forall a int, b int :: 0 <= a && a < b && b < len(sorted) ==> key2(sorted[a][0], sorted[a][1]) != key2(sorted[b][0], sorted[b][1])
+//@   loop 2
+//@     invariant true
